@@ -25,3 +25,99 @@ const char *qsx_guard (void)
 	return "off";
 #endif
 }
+
+/* ---- component level access to the sparse LU code (C13) ---- */
+typedef struct { mpq_factor_work f; int dim; } qsx_lu;
+
+void *qsx_lu_new (int dim)
+{
+	qsx_lu *h = (qsx_lu *) malloc (sizeof (qsx_lu));
+	mpq_EGlpNumInitVar (h->f.fzero_tol);
+	mpq_EGlpNumInitVar (h->f.szero_tol);
+	mpq_EGlpNumInitVar (h->f.partial_tol);
+	mpq_EGlpNumInitVar (h->f.maxelem_orig);
+	mpq_EGlpNumInitVar (h->f.maxelem_factor);
+	mpq_EGlpNumInitVar (h->f.maxelem_cur);
+	mpq_EGlpNumInitVar (h->f.partial_cur);
+	mpq_ILLfactor_init_factor_work (&h->f);
+	h->dim = dim;
+	if (mpq_ILLfactor_create_factor_work (&h->f, dim)) { free (h); return 0; }
+	return h;
+}
+void qsx_lu_free (void *vh)
+{
+	qsx_lu *h = (qsx_lu *) vh;
+	if (!h) return;
+	mpq_ILLfactor_free_factor_work (&h->f);
+	mpq_EGlpNumClearVar (h->f.fzero_tol);
+	mpq_EGlpNumClearVar (h->f.szero_tol);
+	mpq_EGlpNumClearVar (h->f.partial_tol);
+	mpq_EGlpNumClearVar (h->f.maxelem_orig);
+	mpq_EGlpNumClearVar (h->f.maxelem_factor);
+	mpq_EGlpNumClearVar (h->f.maxelem_cur);
+	mpq_EGlpNumClearVar (h->f.partial_cur);
+	free (h);
+}
+int qsx_lu_set_iparam (void *vh, int param, int val)
+{
+	return mpq_ILLfactor_set_factor_iparam (&((qsx_lu *) vh)->f, param, val);
+}
+int qsx_lu_factor (void *vh, int ncols, int *cbeg, int *clen, int *cind, mpq_t * cval, int *basis, int *nsing)
+{
+	qsx_lu *h = (qsx_lu *) vh;
+	int *singr = 0, *singc = 0, rval;
+	(void) ncols;
+	*nsing = 0;
+	rval = mpq_ILLfactor (&h->f, basis, cbeg, clen, cind, cval, nsing, &singr, &singc);
+	free (singr);
+	free (singc);
+	return rval;
+}
+static int qsx_lu_solve (qsx_lu * h, int nz, int *ind, mpq_t * val, mpq_t * out, int which)
+{
+	mpq_svector a, x;
+	int i, rval = 0;
+	mpq_ILLsvector_init (&a);
+	mpq_ILLsvector_init (&x);
+	rval = mpq_ILLsvector_alloc (&a, h->dim) || mpq_ILLsvector_alloc (&x, h->dim);
+	if (rval) goto CLEANUP;
+	for (i = 0; i < nz; i++) { a.indx[i] = ind[i]; mpq_set (a.coef[i], val[i]); }
+	a.nzcnt = nz;
+	if (which == 0) mpq_ILLfactor_ftran (&h->f, &a, &x);
+	else mpq_ILLfactor_btran (&h->f, &a, &x);
+	for (i = 0; i < h->dim; i++) mpq_set_ui (out[i], 0UL, 1UL);
+	for (i = 0; i < x.nzcnt; i++)
+	{
+		if (x.indx[i] < 0 || x.indx[i] >= h->dim) { rval = 77; goto CLEANUP; }
+		mpq_set (out[x.indx[i]], x.coef[i]);
+	}
+CLEANUP:
+	mpq_ILLsvector_free (&a);
+	mpq_ILLsvector_free (&x);
+	return rval;
+}
+int qsx_lu_ftran (void *vh, int nz, int *ind, mpq_t * val, mpq_t * out) { return qsx_lu_solve ((qsx_lu *) vh, nz, ind, val, out, 0); }
+int qsx_lu_btran (void *vh, int nz, int *ind, mpq_t * val, mpq_t * out) { return qsx_lu_solve ((qsx_lu *) vh, nz, ind, val, out, 1); }
+/* replace the column at 'position' of the basis by the given column, following basis.c: ftran_update
+ * saves the spike, ILLfactor_update inserts it */
+int qsx_lu_update (void *vh, int nz, int *ind, mpq_t * val, int position, int *refactor)
+{
+	qsx_lu *h = (qsx_lu *) vh;
+	mpq_svector a, upd, x;
+	int i, rval = 0;
+	mpq_ILLsvector_init (&a);
+	mpq_ILLsvector_init (&upd);
+	mpq_ILLsvector_init (&x);
+	*refactor = 0;
+	rval = mpq_ILLsvector_alloc (&a, h->dim) || mpq_ILLsvector_alloc (&upd, h->dim) || mpq_ILLsvector_alloc (&x, h->dim);
+	if (rval) { rval = -1; goto CLEANUP; }
+	for (i = 0; i < nz; i++) { a.indx[i] = ind[i]; mpq_set (a.coef[i], val[i]); }
+	a.nzcnt = nz;
+	mpq_ILLfactor_ftran_update (&h->f, &a, &upd, &x);
+	rval = mpq_ILLfactor_update (&h->f, &upd, position, refactor);
+CLEANUP:
+	mpq_ILLsvector_free (&a);
+	mpq_ILLsvector_free (&upd);
+	mpq_ILLsvector_free (&x);
+	return rval;
+}
